@@ -55,7 +55,7 @@ def main():
         result["trace"].append([event, str(path), cls])
         if cls == "target":
             state["writes_on_target"] += 1
-            if fault and state["armed"] and state["writes_on_target"] == fault["at"]:
+            if fault and fault["kind"] in ("crash", "enospc", "eio") and state["armed"] and state["writes_on_target"] == fault["at"]:
                 state["armed"] = False
                 result["injected"] = {"kind": fault["kind"], "at": fault["at"], "event": event, "path": str(path)}
                 if fault["kind"] == "crash":
@@ -169,6 +169,27 @@ def main():
         server = make_server(http_spec, result)
         http_ctx = patched_default_transports(server)
         http_ctx.__enter__()
+
+    # ---- torn writes: the generator writes through Path.write_text; a "torn"/"empty" fault lets the k-th such write on the
+    # target open (truncate) the file, write only a prefix, and then stops the process — the file a user finds after Ctrl-C,
+    # a full disk or a power cut.  ("crash"/"enospc"/"eio" faults fire earlier, at the open itself, and leave no file.)
+    if fault and fault["kind"] in ("torn", "empty"):
+        import pathlib
+        real_write_text = pathlib.Path.write_text
+        tstate = {"n": 0}
+
+        def write_text(self, data, *a, **kw):
+            if classify(str(self)) == "target" and state["armed"]:
+                tstate["n"] += 1
+                if tstate["n"] == fault["at"]:
+                    state["armed"] = False
+                    cut = 0 if fault["kind"] == "empty" else max(1, (len(data) * fault.get("num", 1)) // fault.get("den", 2))
+                    real_write_text(self, data[:cut], *a, **kw)
+                    result["injected"] = {"kind": fault["kind"], "at": fault["at"], "path": str(self), "kept_chars": cut, "of": len(data)}
+                    raise InjectedCrash("injected torn write #%d" % fault["at"])
+            return real_write_text(self, data, *a, **kw)
+
+        pathlib.Path.write_text = write_text
 
     sys.addaudithook(hook)
     buf = io.StringIO()
